@@ -152,7 +152,12 @@ static int process_completed_fragment(sqfs_block_processor_t *proc,
 
 	proc->stats.total_frag_count += 1;
 
-	if (!(frag->flags & SQFS_BLK_DONT_DEDUPLICATE)) {
+	/*
+	  A tail that must not be compressed cannot share a chunk in some
+	  other fragment block: that block may be (or already is) compressed.
+	 */
+	if (!(frag->flags & (SQFS_BLK_DONT_DEDUPLICATE |
+			     SQFS_BLK_DONT_COMPRESS))) {
 		search.hash = frag->checksum;
 		search.size = frag->size;
 
